@@ -34,9 +34,9 @@ func init() {
 			"(R06.5) the text of a token is cleanupToken(position in line, word) computed at its own position; (R03.7) Copyright literals; (R06.2) Copyright pseudo-matches are kept apart from the overlap filter - fails today (known finding D12). Regex coverage of notice templates and list markers is NOT decided."})
 	register(&Check{ID: "C11", Modules: []string{"v2"}, Run: runC11,
 		Explanation: "Thin structural clauses behind 'Normalize lines up with Match': (R11.1) non-interference: the line counter and every Line stored do not depend on the normalize/updateDict flags; (R11.2) Normalize and match use the same tokenizeStream and Normalize returns memory allocated by the call; (R11.3) the ignorable-line patterns are case-insensitive (Normalize sees un-lowered text); " +
-			"(R11.4) number clean-up cannot leave a trailing dot (idempotence under re-tokenisation); (R11.5) every word Normalize writes out is tested not to be the end-of-line token (sibling consistency: newlines come only from line numbers); (R06.1) word-table idempotence. Header re-cleaning is NOT decided."})
+			"(R11.4) number clean-up cannot leave a trailing dot (idempotence under re-tokenisation); (R11.5) every word Normalize writes out is tested not to be the end-of-line token (sibling consistency: newlines come only from line numbers); (R11.7) lower-case word tables consulted by the token clean-up (list markers, spelling variants) are consulted with a case-folded key or only when normalising, because Normalize keeps the capital of a word's first letter; (R06.1) word-table idempotence. Header re-cleaning of numbered markers is NOT decided."})
 	register(&Check{ID: "C17", Modules: []string{""}, Run: runC17,
-		Explanation: "Thin structural clauses behind 'v1 offsets delimit real text': (R17.1) every contribution to a token's Text is the input substring s[i:i+size] at the decoded rune's position, or string(r) only under a guard that excludes the invalid-rune replacement; Offset is that i; (R17.2) candidate ranges are sorted by target position before they are untangled; " +
+		Explanation: "Thin structural clauses behind 'v1 offsets delimit real text': (R17.1) every contribution to a token's Text is the input substring s[i:i+size] at the decoded rune's position, or string(r) only under a guard that excludes the invalid-rune replacement, and Offset is that i - or the Text is one substring s[a:b] with Offset a and b a scan position or len(s); (R17.2) candidate ranges are sorted by target position before they are untangled; " +
 			"(R17.3) the string that is tokenised is the string offsets are later applied to. Range merging/coalescing bounds are NOT decided."})
 }
 
@@ -832,6 +832,84 @@ func runC11(c *Ctx) {
 		checkNoTrailingDot(c, p, ct)
 	}
 	checkWordTable(c, p)
+	checkCaseFoldedLookups(c, p, ts)
+}
+
+// checkCaseFoldedLookups: R11.7. Normalize tokenises with normalize=false, which keeps the case of a word's first
+// letter, while Match lower-cases it. A lower-case word table that decides whether a word is kept (list markers) or how
+// it is spelled therefore has to be consulted with a case-folded key, or only when normalising - unless every buffered
+// rune is lower-cased whatever the flag.
+func checkCaseFoldedLookups(c *Ctx, p *core.Prog, ts *ssa.Function) {
+	// (A) every rune appended to a word buffer is lower-cased unconditionally
+	allLower, nApp := true, 0
+	for _, f := range core.WithAnon(ts) {
+		for _, call := range core.CallsIn(f) {
+			if core.StaticCalleeName(call.Common()) != "unicode/utf8.AppendRune" {
+				continue
+			}
+			nApp++
+			if !isCallTo(call.Common().Args[1], "unicode.ToLower") {
+				allLower = false
+			}
+		}
+	}
+	ct := p.Func(v2pkg, "cleanupToken")
+	if ct == nil {
+		return // reported by R11.4's anchor
+	}
+	n := 0
+	for _, f := range pkgClosure(ct, v2pkg) {
+		var flag *ssa.Parameter
+		for _, prm := range f.Params {
+			if isBool(prm.Type()) {
+				flag = prm
+			}
+		}
+		for _, b := range f.Blocks {
+			for _, in := range b.Instrs {
+				lk, ok := in.(*ssa.Lookup)
+				if !ok {
+					continue
+				}
+				ld, ok := lk.X.(*ssa.UnOp)
+				if !ok {
+					continue
+				}
+				g, ok := ld.X.(*ssa.Global)
+				if !ok {
+					continue
+				}
+				mt, ok := g.Type().(*types.Pointer).Elem().Underlying().(*types.Map)
+				if !ok || !isString(mt.Key()) {
+					continue
+				}
+				n++
+				key := core.ShortFn(f) + ": lookup in the word table " + g.Name() + " does not depend on the case Normalize preserves"
+				how := ""
+				k := lk.Index
+				if sl, isSl := k.(*ssa.Slice); isSl {
+					k = sl.X
+				}
+				switch {
+				case isCallTo(k, "strings.ToLower"):
+					how = "the key is strings.ToLower(...)"
+				case allLower && nApp > 0:
+					how = "every rune buffered by the tokenizer is lower-cased, whatever the normalize flag"
+				default:
+					if flag != nil {
+						for _, ft := range core.FactsAt(b) {
+							if core.Unspill(ft.Cond) == ssa.Value(flag) && ft.Truth {
+								how = "consulted only when normalising (the tokenizer lower-cases every rune then)"
+							}
+						}
+					}
+				}
+				c.R.Check(how != "", "R11.7", key, p.Pos(lk.Pos()), how,
+					"the table is lower-case, Normalize keeps the capital of a word's first letter and Match lower-cases it: a capitalised entry (\"A.\", \"II.\") is treated differently by Match and by Normalize, so matching the normalised text sees different words than matching the original")
+			}
+		}
+	}
+	c.R.RequireMin("R11.7", "word-table lookups in the token clean-up", n, 1)
 }
 
 // checkLineFlagIndependence: no value that flows into the line counter or a Line field is data-
